@@ -243,6 +243,9 @@ def ref_real(f):
     initaddr, initsize = int(f[6]), int(f[7])
     deltas = [(int(f[i]), f[i + 1]) for i in range(9, len(f) - 1, 2)]
     ip, sp = ctx.get(A["ip"], 0), ctx.get(A["sp"], 0)
+    nstack = len(bytes.fromhex(f[5])) if f[5] != "-" else 0
+    if nstack == 0 or int(f[4]) + nstack > U64:
+        return "N", set()       # walk_stack unwinds only with a stack memory that has a range (not empty, end within u64)
     if validset is not None and A["sp"] not in validset:
         return "N", set()
     if not (MODBASE <= ip < MODBASE + 0x10000):
@@ -533,7 +536,7 @@ class C06(PropBase):
         # overlapping / duplicate / nested INIT records, records whose end leaves u64 next to ordinary ones: the record
         # table of the parser (into_rangemap_safe keeps the first of two overlapping records in (start, end) order and
         # drops the other AS A WHOLE) is inside the model (C06/FileTable.v over C08's generated tables)
-        no = 1200 if tier == "quick" else 10000
+        no = 1200 if tier == "quick" else 6000
         for _ in range(no):
             nrec = rng.range(2, 5)
             start = rng.choice([0, 16, 100, 18446744073709551500])
@@ -641,6 +644,14 @@ class C06(PropBase):
                         dist["by_kind"]["B"] += 1
                         dist["real_walker"] += 1
                         dist["wide_deref"] = dist.get("wide_deref", 0) + 1
+        # walk_stack's precondition on the stack memory: empty, one byte, ending exactly at 2^64 (no range), ending one below
+        for arch, d in B.items():
+            for (sb, sh) in [(SP, "-"), (SP, "00"), (18446744073709551552, "00" * 64), (18446744073709551551, "00" * 64), (0, "07")]:
+                for text in [d["heads"][0], "%s %s 7" % (d["heads"][0], d["targets"][0])]:
+                    cases.append("|".join(["B", arch, d["ctx"], "all", str(sb), sh, "0", "4096", text]))
+                    dist["by_kind"]["B"] += 1
+                    dist["real_walker"] += 1
+                    dist["stack_edges"] = dist.get("stack_edges", 0) + 1
         # the old arm64 context layout goes through its own copy of the unwinder (arm64_old.rs): every third arm64 case again
         n64 = 0
         for c in list(cases):
